@@ -139,6 +139,11 @@ def replay(col, case):
             if gk is not None and (np.ndim(gk) != 0 or not close(gk, fr(case[key]))):
                 col.violation(name + "-wrong-value-shape-nk-" + lname, dict(rep, truth=case["truth"], expected=float(fr(case[key])),
                                                                            observed=np.asarray(gk, dtype=float).tolist()))
+        # narrow integer types with values in the hundreds: the percentage is formed in floating point, not in int16
+        gi = call(name, fn, (est * 300).astype("int16"), (truth * 300).astype("int16"))
+        col.count(1)
+        if got is not None and gi is not None and not close(gi, got):
+            col.violation(name + "-wrong-value-int16-input", dict(rep, expected=float(got), observed=float(gi)))
         # order of the samples is irrelevant; a common scale factor cancels
         perm = np.arange(n)[::-1]
         g2 = call(name, fn, est[perm] * 4.0, truth[perm] * 4.0)
